@@ -17,6 +17,7 @@ import contextlib
 import hashlib
 import io
 import struct
+import sys
 from fractions import Fraction
 
 import numpy as np
@@ -66,6 +67,9 @@ META = {
                     'root-node direct calls: nodes the aggregation leaves out have no strong neighbours (what the aggregation routines '
                     'guarantee); strength=None is used with scalar problems only (on block matrices it aggregates dofs, not nodes)'],
 }
+
+if hasattr(sys, 'set_int_max_str_digits'):
+    sys.set_int_max_str_digits(0)      # exact rationals of the energy-minimisation model can have thousands of digits
 
 TOL = 1e-10     # the `tol` argument of fit_candidates (its default)
 
